@@ -75,9 +75,12 @@ func runC16(c *Ctx) {
 			// the applying call
 			var applies []ssa.Instruction
 			for _, ci := range callsIn(f, o.apply) {
-				_, a := callArgs(ci.Common())
-				if is(a[0]) {
-					applies = append(applies, ci)
+				// (the object is whichever argument has the reader/writer type: the options may be the receiver or a parameter)
+				for _, a := range ci.Common().Args {
+					if is(a) {
+						applies = append(applies, ci)
+						break
+					}
 				}
 			}
 			// uses: passed to pipeCSV / bufferedCSV / method calls, in f or its closures (through captured cells)
@@ -156,7 +159,7 @@ func runC16(c *Ctx) {
 	c.obF("R16.1", p.Fn("rt.pipeCSV"), "skip-countdown-found", nOptW >= 3, "writes to csvOpts fields found (option setters and the skip countdowns)", fmt.Sprintf("%d writes", nOptW))
 	// the option copier
 	ar := p.Fn("(rt.csvOpts).applyToReader")
-	in0 := paramOf(ar, 0)
+	in0 := paramOfType(ar, "*encoding/csv.Reader")
 	for _, fld := range []string{"Comma", "Comment", "FieldsPerRecord"} {
 		sts := fieldStores(ar, "encoding/csv.Reader", fld)
 		okS := len(sts) == 1
@@ -227,7 +230,7 @@ func runC16(c *Ctx) {
 					continue
 				}
 				l := asCall(a[0])
-				okL := l != nil && calleeName(&l.Call) == "builtin len" && vFieldLoad("rt.csvRecordsWriter", "records", nil)(l.Call.Args[0])
+				okL := l != nil && calleeName(&l.Call) == "builtin len" && (vFieldLoad("rt.csvRecordsWriter", "records", nil)(l.Call.Args[0]) || vFieldLoadO("rt.csvRecordsWriter", "records")(l.Call.Args[0]))
 				c.obI("R16.2", sl, "length-is-record-count", okL && dominates(sl, cp), "the destination's length becomes the number of parsed records", "")
 			}
 		}
@@ -498,7 +501,20 @@ func factLessConstGT(m VPred) EdgePred {
 	return func(cond ssa.Value, branch bool) bool {
 		c, b := stripNot(cond, branch)
 		bo, ok := c.(*ssa.BinOp)
-		if !ok || !m(bo.X) {
+		if !ok {
+			return false
+		}
+		// counting up instead of down: `i < skippedLines` (the bound is the skip count)
+		if _, isK := constInt(bo.Y); !isK && m(bo.Y) && isIntegerType(bo.X.Type()) {
+			switch bo.Op.String() {
+			case "<":
+				return b
+			case ">=":
+				return !b
+			}
+			return false
+		}
+		if !m(bo.X) {
 			return false
 		}
 		k, ok := constInt(bo.Y)
